@@ -27,6 +27,65 @@ def _run(i):
     return event_sis.run_all(_G["scn"][i], _G["refs"][i], _G["EoN"])
 
 
+def _law_chunk(arg):
+    """fast_nonMarkov_SIS with exponential rules: histogram of the node-state vector at time T"""
+    import random
+    import numpy as np
+    from harness import netepi
+    (n, w, g, tau, gam, st0, T, nruns, seed) = arg
+    EoN = _G["EoN"]
+    G = netepi.build_graph(n, w, g)
+    nodes = list(range(1, n + 1))
+    I0 = [u for u in nodes if st0[u - 1] == "I"]
+    random.seed(seed)
+    np.random.seed(seed % (2 ** 32))
+    taur, gamr = tau * common.RATE_UNIT, gam * common.RATE_UNIT
+
+    def rec(u):
+        return random.expovariate(gamr * G.nodes[u]["g"])
+
+    def trans(u, v, rec_delay):
+        out = []
+        r = taur * G[u][v]["w"]
+        t = random.expovariate(r)
+        while t < rec_delay:
+            out.append(t)
+            t += random.expovariate(r)
+        return out
+    obs = {}
+    for _ in range(nruns):
+        sim = EoN.fast_nonMarkov_SIS(G, trans_time_fxn=trans, rec_time_fxn=rec, initial_infecteds=I0, tmax=T + 0.5, return_full_data=True)
+        st = sim.get_statuses(nodelist=nodes, time=T)
+        k = tuple(st[u] for u in nodes)
+        obs[k] = obs.get(k, 0) + 1
+    return obs
+
+
+def law_part(chk):
+    """'with exponential rules this coincides in law with fast_SIS': both are compared with the same master equation
+    (Q assembled from TLC-emitted NetEpiOne transitions); disclosed statistical layer, rejection threshold 1e-9"""
+    from harness import master
+    cases = [(3, (2, 1, 1), (2, 1, 1), 2, 3, ("S", "S", "I"), 0.6), (4, (1, 0, 1, 1, 0, 1), (1, 1, 1, 1), 2, 1, ("S", "I", "S", "I"), 1.0)]
+    per = 2500 if chk.tier == "quick" else 20000
+    for (n, w, g, tau, gam, st0, T) in cases:
+        trans, res = master.emit_one(n, w, g, tau, gam, True)
+        chk.add_tlc("NetEpiOne (SIS) generator for the law of fast_nonMarkov_SIS with exponential rules, n=%d" % n, res)
+        exp = master.distribution_at(trans, n, True, st0, T)
+        obs = {}
+        for o in pool_map(_law_chunk, [(n, w, g, tau, gam, st0, T, per, chk.seed * 977 + k) for k in range(16)]):
+            for k, v in o.items():
+                obs[k] = obs.get(k, 0) + v
+        N = per * 16
+        pval, detail = master.g_test(obs, exp, N)
+        chk.cov["evaluations"] += N
+        chk.note("fast_nonMarkov_SIS with exponential rules, state-at-T law vs master equation (n=%d): p=%.3g (%s, N=%d)" % (n, pval, detail, N))
+        if pval < 1e-9:
+            chk.violation("fast_nonMarkov_SIS|state-at-T-law|exponential-rules",
+                          "with exponential durations and Poisson attempt times the law of the node-state vector at T=%r differs from the SIS master equation (G-test p=%.3g, %s)" % (T, pval, detail),
+                          {"case": [n, w, g, tau, gam, st0, T]})
+    chk.assumptions.append("the clause 'with exponential rules it coincides in law with fast_SIS' is checked statistically (G-test against the master equation that C02 uses for fast_SIS, threshold 1e-9)")
+
+
 def main():
     chk = Check("C13", "model_checking")
     EoN = common.import_eon()
@@ -73,6 +132,8 @@ def main():
             chk.violation("%s|%s|%s" % (iface, kind, cls), detail + " [scenario %d]" % i,
                           {"scenario": scn[i], "reference_log": refs[i], "interface": iface})
     chk.cov["distinct_nontrivial"] = nontriv
+    if not rp:
+        law_part(chk)
     j = idx[len(idx) // 2]
     chk.sample({"scenario": scn[j], "reference_log": refs[j]})
     rule = ("scenario = (graph, initially infected set, per-infection duration table, per-infection delay-list tables, tmin, tmax), seeded random on 2-4 (thorough 2-5) nodes "
